@@ -32,10 +32,12 @@ Proof.
 Qed.
 
 Theorem datetime_roundtrip (y : Z) (mo d h mi s : N) :
-  (0 <= y <= 9999)%Z -> ymd_ok y mo d = true -> hms_ok h mi s = true ->
-  exists bs, datetime_enc y mo d h mi s = Ok bs /\ datetime_dec bs = Ok (VDate y mo d h mi s, []) /\ blen bs <= 13.
+  (0 <= y)%Z -> ymd_ok y mo d = true -> hms_ok h mi s = true ->
+  exists bs, datetime_enc y mo d h mi s = Ok bs /\ datetime_dec bs = Ok (VDate y mo d h mi s, []) /\ blen bs <= 14.
 Proof.
-  intros Hy Hd Ht.
+  intros Hy0 Hd Ht.
+  assert (Hy : (0 <= y <= 262143)%Z).
+  { split; [exact Hy0|]. unfold ymd_ok, MAX_YEAR in Hd. repeat (apply andb_prop in Hd; destruct Hd as [Hd _]). lia. }
   assert (Dm : 1 <= mo <= 12 /\ 1 <= d <= 31).
   { unfold ymd_ok in Hd. apply andb_prop in Hd. destruct Hd as [Hd D4]. apply andb_prop in Hd. destruct Hd as [Hd D3].
     apply andb_prop in Hd. destruct Hd as [D1 D2]. unfold days_in_month in D4.
@@ -44,11 +46,11 @@ Proof.
   { unfold hms_ok in Ht. apply andb_prop in Ht. destruct Ht as [Ht T3]. apply andb_prop in Ht. destruct Ht as [T1 T2]. lia. }
   set (date := Z.to_N y * 10000 + mo * 100 + d).
   set (time := h * 10000 + mi * 100 + s).
-  assert (Hdate : date < 100000000) by (unfold date; lia).
+  assert (Hdate : date < 10000000000) by (unfold date; lia).
   assert (Htime : time < 1000000) by (unfold time; lia).
   destruct (bcd_roundtrip 8 date) as [db [Edb [_ [_ [_ [_ Ddb]]]]]]; [cbn; lia|cbn; lia|].
   destruct (bcd_roundtrip 4 time) as [tb [Etb [_ [_ [_ [_ Dtb]]]]]]; [cbn; lia|cbn; lia|].
-  pose proof (bcd_enc_len date 4 db ltac:(cbn; lia) ltac:(cbn; lia) Edb) as Ldb.
+  pose proof (bcd_enc_len date 5 db ltac:(cbn; lia) ltac:(cbn; lia) Edb) as Ldb.
   pose proof (bcd_enc_len time 3 tb ltac:(cbn; lia) ltac:(cbn; lia) Etb) as Ltb.
   destruct (framed_roundtrip LTlv false (Some TIME_TAG) (bcd_dec 4) tb time [] eq_refl) as [tf [Etf Dtf]];
     [cbn [len_fits]; lia|exact tag_repr_time|exact Dtb|].
